@@ -253,6 +253,8 @@ type FnSpec struct {
 	// panic (indexing, slicing, panic(), panicking callees) is emitted as ONE tuple-valued `← do` block as well
 	// (`let t : T ← do …; pure (vars)`), so that the code behind it is not duplicated into its branches
 	MonadicIf bool
+	// OpaqueClosures: function literals that are only passed on are translated to `()`
+	OpaqueClosures bool
 	// MapOrder: Lean function (List of keys → List of keys) giving the order in which `for k := range m` visits the
 	// keys of a Go map that the configuration represents as the list of its keys (Go leaves the order unspecified;
 	// theorems quantify over the function and assume only that it permutes the keys)
@@ -1041,6 +1043,32 @@ func (t *tr) libCall(c *ast.CallExpr, callee string) (string, T, bool) {
 			f = "Bytes.trimRightByte"
 		}
 		return "(" + f + " " + b + " " + arg(0) + ")", tStr, true
+	case "fmt.Sprintf":
+		// only: a constant format whose verbs are all %s, with string arguments: the concatenation
+		if tv, ok := t.p.info.Types[c.Args[0]]; ok && tv.Value != nil && tv.Value.Kind() == constant.String {
+			f := constant.StringVal(tv.Value)
+			parts := strings.Split(f, "%s")
+			if !strings.Contains(strings.Join(parts, ""), "%") && len(parts) == len(c.Args) {
+				var terms []string
+				for i, p := range parts {
+					if p != "" {
+						terms = append(terms, bytesLit(p))
+					}
+					if i+1 < len(c.Args) {
+						a, at := t.expr(c.Args[i+1])
+						if at.Kind != "str" {
+							t.fail(c, "fmt.Sprintf with a non-string argument")
+						}
+						terms = append(terms, a)
+					}
+				}
+				if len(terms) == 0 {
+					return bytesLit(""), tStr, true
+				}
+				return "(" + strings.Join(terms, " ++ ") + ")", tStr, true
+			}
+		}
+		t.fail(c, "fmt.Sprintf other than a constant format of %%s verbs")
 	case "strings.SplitN":
 		b, ok := t.singleByte(c.Args[1])
 		if k, okk := t.p.info.Types[c.Args[2]]; !ok || !okk || k.Value == nil || k.Value.ExactString() != "2" {
@@ -1148,6 +1176,12 @@ func (t *tr) expr(e ast.Expr) (string, T) {
 			return ext.Value, ext.T
 		}
 		t.fail(x, "identifier %s", x.Name)
+	case *ast.FuncLit:
+		// a closure that the function only hands on (e.g. registers as a handler): opaque, when the configuration says so
+		if t.spec.OpaqueClosures {
+			return "()", T{"opaque", "Unit"}
+		}
+		t.fail(x, "function literal")
 	case *ast.TypeAssertExpr:
 		if ext := t.findExt(calleeText(t.p, x, t.recvName)); ext != nil && ext.Value != "" {
 			for _, st := range ext.Stmts {
